@@ -223,7 +223,10 @@ def run_round(ctx, binp, rnd, nhist, directed):
     # process died gets a stub line)
     byh = {l["hist"]: l for l in lines}
     for e in events:
-        if e.get("logged"):
+        if e.get("logged"):      # (the harness wrote the event itself; add the goroutine dump to it)
+            l = byh.get(e["hist"])
+            if l is not None and l["events"]:
+                l["events"][0]["detail"] = e["detail"][:20000]
             continue
         l = byh.get(e["hist"])
         if l is None:
@@ -413,7 +416,7 @@ def run(ctx):
         ctx.cov.setdefault("histories", collections.Counter())
         for l, d in zip(rr["lines"], res["diag"]):
             ctx.cov["histories"]["%s/%s/%s" % (l["cfg"]["mode"], l["cfg"]["ttl"], "accepted" if d["acc"] else ("n/a" if not d["searched"] else "not accepted"))] += 1
-        for smp in s.get("samples", [])[:1]:
+        for smp in (s.get("samples") or [])[:1]:
             ctx.sample({"round": rr["rnd"], "history": smp})
     ctx.cov["histories"] = dict(ctx.cov.get("histories", {}))
     binding(ctx, first_res[0], first_res[1], known)
@@ -428,9 +431,12 @@ def run(ctx):
                        "(clients GETATTR their own files of pairwise different sizes at the same moment, no injected delays; replies incl. size and "
                        "fileid are checked); every 20th consists of re-export rounds (Unexport, then all clients MNT + READDIRPLUS of 40 entries at "
                        "once, aligned by a barrier right before the handle allocations; the handle table is projected after every round); directed "
-                       "schedules with blocking gates; a history is non-trivial when requests of different clients overlap in real time and at least two "
+                       "schedules with blocking gates; nested schedules (a request on d/x or its handle - WRITE, SETATTR size/mode, CREATE, READ, "
+                       "GETATTR, LOOKUP, READDIRPLUS - held at every one of its backend-operation boundaries while another client renames d/x "
+                       "away or removes it, then the name is put back or not and both clients use the old handle and the directory again; "
+                       "completion within 10 s, races, final-state clause only); a history is non-trivial when requests of different clients overlap in real time and at least two "
                        "requests changed the tree")
-    ctx.cov["spec_actions_covered_by_impl"] = ["Step (all 13 procedures)", "Observe/Accepting", "FinalFails", "EventBad", "FidBad", DEV_RD, DEV_PUT, DEV_RDATTR]
+    ctx.cov["spec_actions_covered_by_impl"] = ["Step (all 13 procedures)", "Observe/Accepting", "FinalFails", "EventBad", "FidBad", DEV_RD, DEV_PUT, DEV_RDATTR, "Dev_SetattrTrustsStaleHandleMode", "nested schedules (completion)"]
     ctx.assumptions += [
         "the vfs backend is thread-safe and executes every operation atomically under one mutex (its FileInfo values are immutable snapshots)",
         "invocation / response order is taken from one atomic counter incremented immediately before and after HandleCall",
